@@ -163,6 +163,49 @@ def tiny_coef(rng, k, feasible, name="tc"):
     return mk(name, False, cols, rows)
 
 
+def tiny_bounding(rng, k, name="tb"):
+    """max x + y  s.t.  x + 2^-k y <= 1 (+ optionally a harmless row): bounded, optimum 2^k at (0, 2^k) - the only coefficient
+    that bounds y is far below every floating-point pivot tolerance up to several hundred bits."""
+    e = F(1, 2 ** k)
+    cols = [(F(1), 0, INF), (F(1), 0, INF)]
+    rows = [("L", F(1), F(0), [(0, F(1)), (1, e)])]
+    if rng.random() < 0.5:
+        rows.append(("G", F(-rng.randint(1, 5)), F(0), [(0, F(1)), (1, F(-1, 2 ** (k + 3)))]))
+    return mk(name, True, cols, rows)
+
+
+def dependent_cols(rng, name="dc"):
+    """a planted (feasible, bounded) LP plus free columns that are multiples of existing columns (objective scaled alike):
+    status and value are unchanged, but every basis containing a column and its multiple is singular.
+    lp["dep_cols"] lists such pairs for the generators of warm-start bases."""
+    lp = planted_lp(rng, m=rng.randint(2, 5), n=rng.randint(2, 5), kind=rng.choice(["small", "frac"]), name=name)
+    n = len(lp["cols"])
+    deps = []
+    for _ in range(rng.randint(1, 2)):
+        j = rng.randrange(n)
+        f = F(rng.choice([-3, -1, 2, 5]), rng.choice([1, 2]))
+        k = len(lp["cols"])
+        nm, o, lo, up = lp["cols"][j]
+        lp["cols"].append(("d%d" % k, o * f, NINF, INF))
+        lp["rows"] = [(rn, sn, rh, rg, ent + [(k, v * f) for (c, v) in ent if c == j]) for (rn, sn, rh, rg, ent) in lp["rows"]]
+        deps.append((j, k))
+    lp["dep_cols"] = deps
+    return lp
+
+
+def pick_basic_set(rng, lp):
+    """index set (structurals 0..n-1, logicals n..n+m-1) of size m for an arbitrary warm-start basis; when the LP names
+    dependent columns, most of the time both members of a pair are made basic (singular basis: the repair path runs)"""
+    n, m = len(lp["cols"]), len(lp["rows"])
+    idx = list(range(n + m))
+    rng.shuffle(idx)
+    deps = lp.get("dep_cols") or []
+    if deps and m >= 2 and rng.random() < 0.8:
+        pair = list(rng.choice(deps))
+        idx = pair + [i for i in idx if i not in pair]
+    return set(idx[:m])
+
+
 def face_only(rng, name="fo"):
     n = rng.randint(2, 4)
     ent = [(j, F(1)) for j in range(n)]
@@ -257,11 +300,18 @@ def _family_stream(rng, count, big=False):
         elif r == 9:
             out.append(unbounded_lp(rng, hidden=rng.random() < 0.5, name="ub%d" % i))
         elif r == 10:
-            out.append(near_parallel(rng, rng.choice([2, 30, 60, 300]), name="np%d" % i))
-        elif i % 24 == 11:
-            out.append(tiny_coef(rng, rng.choice([12, 20, 38, 40, 60, 90]), rng.random() < 0.5, name="tc%d" % i))
+            if (i // 12) % 2 == 0:
+                out.append(near_parallel(rng, rng.choice([2, 30, 60, 300]), name="np%d" % i))
+            else:
+                out.append(tiny_bounding(rng, rng.choice([60, 110, 133, 150, 200, 400]), name="tb%d" % i))
         else:
-            out.append(rng.choice([lambda r_, name: beale(name), empty_rows_cols])(rng, name="mx%d" % i))
+            v = (i // 12) % 3
+            if v == 0:
+                out.append(tiny_coef(rng, rng.choice([12, 20, 38, 40, 60, 90]), rng.random() < 0.5, name="tc%d" % i))
+            elif v == 1:
+                out.append(dependent_cols(rng, name="dc%d" % i))
+            else:
+                out.append(rng.choice([lambda r_, name: beale(name), empty_rows_cols])(rng, name="mx%d" % i))
     return out
 
 
